@@ -5,7 +5,6 @@ package dispatch
 import (
 	"encoding/json"
 	"fmt"
-	"regexp"
 	"sort"
 	"strings"
 	"testing"
@@ -15,233 +14,13 @@ import (
 
 	"github.com/prometheus/alertmanager/config"
 	"github.com/prometheus/alertmanager/internal/verif/rep"
+	"github.com/prometheus/alertmanager/internal/verif/routegen"
 )
 
 // C07: routing. Every tree of a bounded shape family is written as YAML, loaded by the real
 // config.Load, built by the real NewRoute and matched by the real Route.Match for every label set
 // over a,b in {absent,1,2}; the result is compared with a recursive reference written from the
 // statement and operating on the harness's own tree description.
-
-type c07Matcher struct {
-	yaml string                       // route fields producing the matcher(s)
-	ok   func(ls map[string]string) bool // reference semantics (missing label = "")
-}
-
-func reFull(p string) *regexp.Regexp { return regexp.MustCompile("^(?:" + p + ")$") }
-
-var c07Matchers = []c07Matcher{
-	{"", func(ls map[string]string) bool { return true }},
-	{"matchers: [ 'a=\"1\"' ]", func(ls map[string]string) bool { return ls["a"] == "1" }},
-	{"matchers: [ 'a!=\"1\"' ]", func(ls map[string]string) bool { return ls["a"] != "1" }},
-	{"matchers: [ 'a=~\"1|2\"' ]", func(ls map[string]string) bool { return reFull("1|2").MatchString(ls["a"]) }},
-	{"matchers: [ 'a=\"\"' ]", func(ls map[string]string) bool { return ls["a"] == "" }},
-	{"matchers: [ 'b=\"1\"', 'a!~\"2\"' ]", func(ls map[string]string) bool { return ls["b"] == "1" && !reFull("2").MatchString(ls["a"]) }},
-	{"match: { a: '1' }", func(ls map[string]string) bool { return ls["a"] == "1" }},
-	{"match_re: { b: '1|3' }", func(ls map[string]string) bool { return reFull("1|3").MatchString(ls["b"]) }},
-}
-
-type c07Node struct {
-	m        int
-	cont     bool
-	recv     string // "" = inherit
-	groupBy  int    // 0 inherit, 1 [x], 2 [], 3 ['...'], 4 [y, x]
-	gw, gi, ri time.Duration
-	labels   map[string]string
-	mute, active []string
-	kids     []*c07Node
-}
-
-func (n *c07Node) yaml(ind string, sb *strings.Builder, root bool) {
-	w := func(s string) { sb.WriteString(ind + s + "\n") }
-	if n.recv != "" {
-		w("receiver: " + n.recv)
-	}
-	if !root && c07Matchers[n.m].yaml != "" {
-		w(c07Matchers[n.m].yaml)
-	}
-	if n.cont {
-		w("continue: true")
-	}
-	switch n.groupBy {
-	case 1:
-		w("group_by: [x]")
-	case 2:
-		w("group_by: []")
-	case 3:
-		w("group_by: ['...']")
-	case 4:
-		w("group_by: [y, x]")
-	}
-	if n.gw != 0 {
-		w("group_wait: " + model.Duration(n.gw).String())
-	}
-	if n.gi != 0 {
-		w("group_interval: " + model.Duration(n.gi).String())
-	}
-	if n.ri != 0 {
-		w("repeat_interval: " + model.Duration(n.ri).String())
-	}
-	if len(n.labels) > 0 {
-		var ks []string
-		for k := range n.labels {
-			ks = append(ks, k)
-		}
-		sort.Strings(ks)
-		w("labels:")
-		for _, k := range ks {
-			w("  " + k + ": '" + n.labels[k] + "'")
-		}
-	}
-	if len(n.mute) > 0 {
-		w("mute_time_intervals: [" + strings.Join(n.mute, ", ") + "]")
-	}
-	if len(n.active) > 0 {
-		w("active_time_intervals: [" + strings.Join(n.active, ", ") + "]")
-	}
-	if len(n.kids) > 0 {
-		w("routes:")
-		for _, k := range n.kids {
-			var sub strings.Builder
-			k.yaml(ind+"  ", &sub, false)
-			s := sub.String()
-			// first line becomes the list item
-			s = ind + "- " + strings.TrimPrefix(s, ind+"  ")
-			sb.WriteString(s)
-		}
-	}
-}
-
-func c07Config(root *c07Node) string {
-	var sb strings.Builder
-	sb.WriteString("receivers:\n- name: r0\n- name: r1\n- name: r2\n- name: r3\ntime_intervals:\n- name: ti1\n  time_intervals:\n  - weekdays: ['monday']\n- name: ti2\n  time_intervals:\n  - weekdays: ['sunday']\nroute:\n")
-	root.yaml("  ", &sb, true)
-	return sb.String()
-}
-
-type c07J struct {
-	M          int
-	Cont       bool
-	Recv       string
-	GroupBy    int
-	Gw, Gi, Ri time.Duration
-	Labels     map[string]string
-	Mute       []string
-	Active     []string
-	Kids       []*c07J
-}
-
-func c07ToJ(n *c07Node) *c07J {
-	j := &c07J{n.m, n.cont, n.recv, n.groupBy, n.gw, n.gi, n.ri, n.labels, n.mute, n.active, nil}
-	for _, k := range n.kids {
-		j.Kids = append(j.Kids, c07ToJ(k))
-	}
-	return j
-}
-
-func c07FromJ(j *c07J) *c07Node {
-	n := &c07Node{m: j.M, cont: j.Cont, recv: j.Recv, groupBy: j.GroupBy, gw: j.Gw, gi: j.Gi, ri: j.Ri, labels: j.Labels, mute: j.Mute, active: j.Active}
-	for _, k := range j.Kids {
-		n.kids = append(n.kids, c07FromJ(k))
-	}
-	return n
-}
-
-// reference opts
-type c07Opts struct {
-	recv       string
-	groupBy    []string
-	all        bool
-	gw, gi, ri time.Duration
-	labels     map[string]string
-}
-
-func c07Inherit(p c07Opts, n *c07Node) c07Opts {
-	o := p
-	if n.recv != "" {
-		o.recv = n.recv
-	}
-	switch n.groupBy {
-	case 1:
-		o.groupBy, o.all = []string{"x"}, false
-	case 2:
-		o.groupBy, o.all = []string{}, false
-	case 3:
-		o.all = true
-	case 4:
-		o.groupBy, o.all = []string{"x", "y"}, false
-	}
-	if n.gw != 0 {
-		o.gw = n.gw
-	}
-	if n.gi != 0 {
-		o.gi = n.gi
-	}
-	if n.ri != 0 {
-		o.ri = n.ri
-	}
-	if len(n.labels) > 0 {
-		m := map[string]string{}
-		for k, v := range p.labels {
-			m[k] = v
-		}
-		for k, v := range n.labels {
-			m[k] = v
-		}
-		o.labels = m
-	}
-	return o
-}
-
-// reference match: returns the pre-order indices of the chosen nodes
-func c07RefMatch(n *c07Node, root bool, ls map[string]string, idx map[*c07Node]int) []int {
-	if !root && !c07Matchers[n.m].ok(ls) {
-		return nil
-	}
-	var all []int
-	for _, k := range n.kids {
-		m := c07RefMatch(k, false, ls, idx)
-		all = append(all, m...)
-		if len(m) > 0 && !k.cont {
-			break
-		}
-	}
-	if len(all) == 0 {
-		all = []int{idx[n]}
-	}
-	return all
-}
-
-func c07Index(root *c07Node) (map[*c07Node]int, []*c07Node) {
-	idx := map[*c07Node]int{}
-	var order []*c07Node
-	var walk func(n *c07Node)
-	walk = func(n *c07Node) {
-		idx[n] = len(order)
-		order = append(order, n)
-		for _, k := range n.kids {
-			walk(k)
-		}
-	}
-	walk(root)
-	return idx, order
-}
-
-var c07LabelSets = func() []map[string]string {
-	var out []map[string]string
-	for _, a := range []string{"", "1", "2"} {
-		for _, b := range []string{"", "1", "2"} {
-			ls := map[string]string{"alertname": "X"}
-			if a != "" {
-				ls["a"] = a
-			}
-			if b != "" {
-				ls["b"] = b
-			}
-			out = append(out, ls)
-		}
-	}
-	return out
-}()
 
 func sortedKeys(m map[model.LabelName]struct{}) []string {
 	var l []string
@@ -253,8 +32,8 @@ func sortedKeys(m map[model.LabelName]struct{}) []string {
 }
 
 // c07Check loads one tree and compares matching and inherited options. Returns "" or a violation.
-func c07Check(root *c07Node, R *rep.Report) (sig, desc string) {
-	y := c07Config(root)
+func c07Check(root *routegen.Node, R *rep.Report) (sig, desc string) {
+	y := routegen.Config(root)
 	defer func() {
 		if r := recover(); r != nil {
 			sig, desc = "panic", fmt.Sprintf("%v on config:\n%s", r, y)
@@ -265,7 +44,7 @@ func c07Check(root *c07Node, R *rep.Report) (sig, desc string) {
 		return "valid-tree-rejected", fmt.Sprintf("%v\n%s", err, y)
 	}
 	rt := NewRoute(conf.Route, nil)
-	idx, order := c07Index(root)
+	idx, order := routegen.Index(root)
 	var real []*Route
 	rt.Walk(func(r *Route) { real = append(real, r) })
 	if len(real) != len(order) {
@@ -276,21 +55,21 @@ func c07Check(root *c07Node, R *rep.Report) (sig, desc string) {
 		ridx[r] = i
 	}
 	// inheritance
-	ref := make([]c07Opts, len(order))
-	var walk func(n *c07Node, p c07Opts)
-	walk = func(n *c07Node, p c07Opts) {
-		o := c07Inherit(p, n)
+	ref := make([]routegen.Opts, len(order))
+	var walk func(n *routegen.Node, p routegen.Opts)
+	walk = func(n *routegen.Node, p routegen.Opts) {
+		o := routegen.Inherit(p, n)
 		ref[idx[n]] = o
-		for _, k := range n.kids {
+		for _, k := range n.Kids {
 			walk(k, o)
 		}
 	}
-	walk(root, c07Opts{gw: 30 * time.Second, gi: 5 * time.Minute, ri: 4 * time.Hour, groupBy: []string{}, labels: map[string]string{}})
+	walk(root, routegen.Opts{Gw: 30 * time.Second, Gi: 5 * time.Minute, Ri: 4 * time.Hour, GroupBy: []string{}, Labels: map[string]string{}})
 	for i, r := range real {
 		o, n := ref[i], order[i]
 		ro := r.RouteOpts
 		gb := sortedKeys(ro.GroupBy)
-		wantGB := append([]string{}, o.groupBy...)
+		wantGB := append([]string{}, o.GroupBy...)
 		sort.Strings(wantGB)
 		lbl := map[string]string{}
 		for k, v := range ro.Labels {
@@ -298,26 +77,26 @@ func c07Check(root *c07Node, R *rep.Report) (sig, desc string) {
 		}
 		bad := ""
 		switch {
-		case ro.Receiver != o.recv:
-			bad = fmt.Sprintf("receiver %q, expected %q", ro.Receiver, o.recv)
-		case ro.GroupByAll != o.all:
-			bad = fmt.Sprintf("group_by all=%v, expected %v", ro.GroupByAll, o.all)
-		case !o.all && strings.Join(gb, ",") != strings.Join(wantGB, ","):
+		case ro.Receiver != o.Recv:
+			bad = fmt.Sprintf("receiver %q, expected %q", ro.Receiver, o.Recv)
+		case ro.GroupByAll != o.All:
+			bad = fmt.Sprintf("group_by all=%v, expected %v", ro.GroupByAll, o.All)
+		case !o.All && strings.Join(gb, ",") != strings.Join(wantGB, ","):
 			bad = fmt.Sprintf("group_by %v, expected %v", gb, wantGB)
-		case ro.GroupWait != o.gw || ro.GroupInterval != o.gi || ro.RepeatInterval != o.ri:
-			bad = fmt.Sprintf("intervals %v/%v/%v, expected %v/%v/%v", ro.GroupWait, ro.GroupInterval, ro.RepeatInterval, o.gw, o.gi, o.ri)
-		case fmt.Sprint(lbl) != fmt.Sprint(o.labels):
-			bad = fmt.Sprintf("labels %v, expected %v", lbl, o.labels)
-		case strings.Join(ro.MuteTimeIntervals, ",") != strings.Join(n.mute, ",") || strings.Join(ro.ActiveTimeIntervals, ",") != strings.Join(n.active, ","):
-			bad = fmt.Sprintf("time intervals mute=%v active=%v, the route itself configures mute=%v active=%v", ro.MuteTimeIntervals, ro.ActiveTimeIntervals, n.mute, n.active)
+		case ro.GroupWait != o.Gw || ro.GroupInterval != o.Gi || ro.RepeatInterval != o.Ri:
+			bad = fmt.Sprintf("intervals %v/%v/%v, expected %v/%v/%v", ro.GroupWait, ro.GroupInterval, ro.RepeatInterval, o.Gw, o.Gi, o.Ri)
+		case fmt.Sprint(lbl) != fmt.Sprint(o.Labels):
+			bad = fmt.Sprintf("labels %v, expected %v", lbl, o.Labels)
+		case strings.Join(ro.MuteTimeIntervals, ",") != strings.Join(n.Mute, ",") || strings.Join(ro.ActiveTimeIntervals, ",") != strings.Join(n.Active, ","):
+			bad = fmt.Sprintf("time intervals mute=%v active=%v, the route itself configures mute=%v active=%v", ro.MuteTimeIntervals, ro.ActiveTimeIntervals, n.Mute, n.Active)
 		}
 		if bad != "" {
 			return "inherited-options-differ", fmt.Sprintf("node %d: %s\n%s", i, bad, y)
 		}
 	}
 	// matching
-	for _, ls := range c07LabelSets {
-		want := c07RefMatch(root, true, ls, idx)
+	for _, ls := range routegen.LabelSets {
+		want := routegen.RefMatch(root, true, ls, idx)
 		lset := model.LabelSet{}
 		for k, v := range ls {
 			lset[model.LabelName(k)] = model.LabelValue(v)
@@ -347,11 +126,11 @@ func TestVerifC07(t *testing.T) {
 	}
 	if rp := rep.ReplaySpec(); rp != nil {
 		b, _ := json.Marshal(rp["tree"])
-		var j c07J
+		var j routegen.Node
 		if err := json.Unmarshal(b, &j); err != nil {
 			t.Fatal(err)
 		}
-		root := c07FromJ(&j)
+		root := &j
 		R := rep.New("C07", fmt.Sprint(rp["part"]))
 		R.Executions = 1
 		sig, desc := c07Check(root, R)
@@ -367,71 +146,25 @@ func TestVerifC07(t *testing.T) {
 		R := rep.New("C07", "matching")
 		ctr := 0
 		timedOut := false
-		nm := len(c07Matchers)
-		var shapes [][3]int // children, grandchildren under child 1, under child 2
-		for c := 0; c <= 3; c++ {
-			for g1 := 0; g1 <= 2; g1++ {
-				for g2 := 0; g2 <= 2; g2++ {
-					if (c < 1 && g1 > 0) || (c < 2 && g2 > 0) || c+g1+g2 > maxNodes+1 {
-						continue
-					}
-					shapes = append(shapes, [3]int{c, g1, g2})
-				}
+		nm := len(routegen.Matchers)
+		routegen.MatchingFamily(maxNodes, func(c int, root *routegen.Node) bool {
+			ctr = c
+			if ctr%nsh != shard {
+				return true
 			}
-		}
-		for _, sh := range shapes {
-			n := sh[0] + sh[1] + sh[2]
-			if n > maxNodes+1 {
-				continue
+			if ctr%4096 == 0 && time.Now().After(deadline) {
+				timedOut = true
+				return false
 			}
-			// parameters per non-root node: matcher (nm) x continue (2); grandchildren use the first 4 matchers when n is maximal
-			var rec func(k int, params []int)
-			rec = func(k int, params []int) {
-				if timedOut {
-					return
-				}
-				if k == n {
-					ctr++
-					if ctr%nsh != shard {
-						return
-					}
-					if ctr%4096 == 0 && time.Now().After(deadline) {
-						timedOut = true
-						return
-					}
-					root := &c07Node{recv: "r0"}
-					var nodes []*c07Node
-					for i := 0; i < n; i++ {
-						nodes = append(nodes, &c07Node{m: params[i] / 2, cont: params[i]%2 == 1, recv: fmt.Sprintf("r%d", 1+i%3)})
-					}
-					for i := 0; i < sh[0]; i++ {
-						root.kids = append(root.kids, nodes[i])
-					}
-					for i := 0; i < sh[1]; i++ {
-						nodes[0].kids = append(nodes[0].kids, nodes[sh[0]+i])
-					}
-					for i := 0; i < sh[2]; i++ {
-						nodes[1].kids = append(nodes[1].kids, nodes[sh[0]+sh[1]+i])
-					}
-					R.Executions++
-					if sig, desc := c07Check(root, R); sig != "" {
-						R.Violate(sig, desc, map[string]any{"part": "matching", "tree": c07ToJ(root)})
-					}
-					return
-				}
-				lim := nm
-				if k >= sh[0] && n > 3 {
-					lim = 4
-				}
-				for p := 0; p < lim*2; p++ {
-					rec(k+1, append(params, p))
-				}
+			R.Executions++
+			if sig, desc := c07Check(root, R); sig != "" {
+				R.Violate(sig, desc, map[string]any{"part": "matching", "tree": root})
 			}
-			rec(0, nil)
-		}
+			return true
+		})
 		R.Exhaustive = !timedOut
 		R.Bound = fmt.Sprintf("all trees root + <=3 children + <=2 grandchildren under each of the first two children, with <= %d non-root nodes, %d matcher kinds x continue per node (4 kinds for grandchildren in the largest shapes), x 9 label sets", maxNodes+1, nm)
-		R.Sample(map[string]any{"example_tree": c07Config(&c07Node{recv: "r0", kids: []*c07Node{{m: 3, cont: true, recv: "r1", kids: []*c07Node{{m: 5, recv: "r2"}}}, {m: 6, recv: "r3"}}})})
+		R.Sample(map[string]any{"example_tree": routegen.Config(&routegen.Node{Recv: "r0", Kids: []*routegen.Node{{M: 3, Cont: true, Recv: "r1", Kids: []*routegen.Node{{M: 5, Recv: "r2"}}}, {M: 6, Recv: "r3"}}})})
 		R.Write()
 	}
 	// ---- family B: inheritance ------------------------------------------------------------
@@ -453,26 +186,26 @@ func TestVerifC07(t *testing.T) {
 				}
 			}
 		}
-		mk := func(p pick, level int, root bool) *c07Node {
-			n := &c07Node{m: 1 + level, groupBy: p.gb}
+		mk := func(p pick, level int, root bool) *routegen.Node {
+			n := &routegen.Node{M: 1 + level, GroupBy: p.gb}
 			if p.recv == 1 || root {
-				n.recv = fmt.Sprintf("r%d", level)
+				n.Recv = fmt.Sprintf("r%d", level)
 			}
 			if p.iv == 1 {
-				n.gw, n.gi, n.ri = time.Duration(level+1)*time.Second, time.Duration(level+1)*time.Minute, time.Duration(level+1)*time.Hour
+				n.Gw, n.Gi, n.Ri = time.Duration(level+1)*time.Second, time.Duration(level+1)*time.Minute, time.Duration(level+1)*time.Hour
 			}
 			switch p.lb {
 			case 1:
-				n.labels = map[string]string{"k": fmt.Sprintf("L%d", level)}
+				n.Labels = map[string]string{"k": fmt.Sprintf("L%d", level)}
 			case 2:
-				n.labels = map[string]string{"k": fmt.Sprintf("L%d", level), fmt.Sprintf("k%d", level): "v"}
+				n.Labels = map[string]string{"k": fmt.Sprintf("L%d", level), fmt.Sprintf("k%d", level): "v"}
 			}
 			if !root {
 				switch p.ti {
 				case 1:
-					n.mute = []string{"ti1"}
+					n.Mute = []string{"ti1"}
 				case 2:
-					n.active = []string{"ti2"}
+					n.Active = []string{"ti2"}
 				}
 			}
 			return n
@@ -492,11 +225,11 @@ func TestVerifC07(t *testing.T) {
 					child := mk(pc, 1, false)
 					grand := mk(pg, 2, false)
 					sib := mk(pg, 3, false)
-					child.kids = []*c07Node{grand}
-					root.kids = []*c07Node{child, sib}
+					child.Kids = []*routegen.Node{grand}
+					root.Kids = []*routegen.Node{child, sib}
 					R.Executions++
 					if sig, desc := c07Check(root, R); sig != "" {
-						R.Violate(sig, desc, map[string]any{"part": "inheritance", "tree": c07ToJ(root)})
+						R.Violate(sig, desc, map[string]any{"part": "inheritance", "tree": root})
 					}
 				}
 			}
